@@ -48,7 +48,7 @@ type bkmEngine struct{}
 
 func init() { engines["bkm"] = bkmEngine{} }
 
-var bkmNames = []string{"", "work", "@work", "Work", "privat", "@ünï", "my project", "@a b", "q\"uote", "it's", "@default", "default", "z", "@Z", "読む", "x-1_y", "🚀", "@𝓌ork"}
+var bkmNames = []string{"", "work", "@work", "Work", "privat", "@ünï", "my project", "@a b", "q\"uote", "it's", "@default", "default", "z", "@Z", "読む", "x-1_y", "🚀", "@𝓌ork", "a@b", "me@", "@x@y", "2fa"}
 var bkmFiles = []string{"w.klg", "x.klg", "🙂 dir/e.klg", "sub dir/w.klg", "other/x.klg", "sub dir/ü file.klg", "q'uo\"te.klg", "bad.klg", "new1.klg", "new 2.klg", "nodir/n.klg", "empty.klg"}
 
 func normName(typed string) string {
@@ -400,7 +400,11 @@ func (bkmEngine) execute(sc *Scenario) *Outcome {
 		}
 		targetPath := filepath.Join(root, op.File)
 		existsBefore, validBefore := false, false
+		targetBefore := ""
 		if op.Kind == "set" {
+			if tb, err := os.ReadFile(targetPath); err == nil {
+				targetBefore = string(tb)
+			}
 			existsBefore, validBefore = fileValid(targetPath)
 			if fi, err := os.Stat(targetPath); err == nil && !fi.IsDir() {
 				existsBefore = true
@@ -542,7 +546,7 @@ func (bkmEngine) execute(sc *Scenario) *Outcome {
 			}
 			if op.Kind == "set" && op.Create && existsBefore {
 				// the existing target must not have been truncated
-				if b, _ := os.ReadFile(targetPath); string(b) != bc.Files[op.File] && bc.Files[op.File] != "" {
+				if b, _ := os.ReadFile(targetPath); string(b) != targetBefore {
 					report(i, op, argv, "create-truncated-target", "set --create on an existing file changed that file")
 				}
 			}
